@@ -46,6 +46,12 @@ SPARSE_SIG = [
     "test_basis_evaluate", "trial_basis_evaluate", "kernel_evaluator", "result",
 ]
 
+SPARSE_KERNEL_SIG = [
+    "grid_data", "nshape_test", "nshape_trial", "element_index", "elements", "quad_points", "quad_weights",
+    "test_normal_multipliers", "trial_normal_multipliers", "test_multipliers", "trial_multipliers", "test_shapeset",
+    "trial_shapeset", "test_basis_evaluate", "trial_basis_evaluate", "result",
+]
+
 GRID_ATTRS = {
     "integration_elements": (1, [None]),
     "normals": (2, [None, 3]),
@@ -54,6 +60,8 @@ GRID_ATTRS = {
     "vertices": (2, [3, None]),
     "elements": (2, [3, None]),
     "volumes": (1, [None]),
+    "element_neighbor_indices": (1, [None]),
+    "element_neighbor_indexptr": (1, [None]),
     "centroids": (2, [None, 3]),
     "diameters": (1, [None]),
 }
@@ -248,14 +256,12 @@ class Hooks:
                 raise AnalysisError("kernel evaluator does not receive kernel_parameters unchanged")
             return opaque_atom("K" if comp is None else "K%s" % symex.idx_str(comp), x + y + nx + ny)
         if isinstance(base, BasisEval):
-            # B(name)⟨element; idx...; ξ of quadrature index (last index)⟩
+            # B(name)[shapeset|points|grid|multipliers|normal multipliers]⟨element, idx...⟩
             a = base.args
             if len(a) != 6:
                 raise AnalysisError("basis evaluator called with %d arguments" % len(a))
-            q = idx[-1]
-            xi = _local_point(it, a[2], q, node)
-            return opaque_atom("%s[%s|%s|%s|%s]" % (base.desc, symex.describe(a[1]), symex.describe(a[3]), symex.describe(a[4]), symex.describe(a[5])),
-                               [tov(a[0])] + [tov(i) for i in idx[:-1]] + xi)
+            return opaque_atom("%s[%s|%s|%s|%s|%s]" % (base.desc, symex.describe(a[1]), symex.describe(a[2]), symex.describe(a[3]), symex.describe(a[4]), symex.describe(a[5])),
+                               [tov(a[0])] + [tov(i) for i in idx])
         return None
 
     def literal_axes(self, it, base):
@@ -375,9 +381,36 @@ def _sym_inputs(kind, params, hooks):
             "normal_multipliers": arr("normal_multipliers", 1, [N("g")]),
             "support_elements": arr("support_elements", 1, [N("support")]),
         }
+    elif kind == "sparse_kernel":
+        nq = N("quad")
+        ev = fresh_var("element_index", N("elements"))
+        env = {
+            "grid_data": Grid("grid_data"),
+            "nshape_test": N("nshape_test"),
+            "nshape_trial": N("nshape_trial"),
+            "element_index": ev,
+            "elements": arr("elements", 1, [N("elements")]),
+            "quad_points": arr("quad_points", 2, [2, nq]),
+            "quad_weights": arr("quad_weights", 1, [nq]),
+            "test_normal_multipliers": arr("test_normal_multipliers", 1, [N("g")]),
+            "trial_normal_multipliers": arr("trial_normal_multipliers", 1, [N("g")]),
+            "test_multipliers": arr("test_multipliers", 2, [N("g"), N("nshape_test")]),
+            "trial_multipliers": arr("trial_multipliers", 2, [N("g"), N("nshape_trial")]),
+            "test_shapeset": Opq("test_shapeset", "shapeset_obj"),
+            "trial_shapeset": Opq("trial_shapeset", "shapeset_obj"),
+            "test_basis_evaluate": Opq("test_basis", "basis"),
+            "trial_basis_evaluate": Opq("trial_basis", "basis"),
+            "result": arr("result", 1, [N("res")]),
+        }
     else:
         raise AnalysisError("unknown assembler kind " + kind)
     return env
+
+
+def fresh_var(name, bound):
+    v = symex.fresh("ι" + name)
+    symex.RANGES[v] = bound
+    return V.atom(v)
 
 
 def run_assembler(ctx, fname, kind, kparams, kernel_dimension=1, module=NK):
@@ -385,14 +418,15 @@ def run_assembler(ctx, fname, kind, kparams, kernel_dimension=1, module=NK):
     m = ctx.repo.mod(module)
     fn = m.fn(fname)
     params = arg_names(fn)
-    sig = {"regular": REGULAR_SIG, "singular": SINGULAR_SIG, "potential": POTENTIAL_SIG}[kind]
+    sig = {"regular": REGULAR_SIG, "singular": SINGULAR_SIG, "potential": POTENTIAL_SIG, "sparse_kernel": SPARSE_KERNEL_SIG}[kind]
     if len(params) != len(sig):
         raise AnalysisError("%s: %d parameters, the %s registry signature has %d" % (fname, len(params), kind, len(sig)))
     symex.reset()
     hooks = Hooks(ctx, kind)
     roles = _sym_inputs(kind, params, hooks)
-    roles["kernel_parameters"] = Tensor((len(kparams),), kparams)
-    hooks.kparams = roles["kernel_parameters"]
+    if kind != "sparse_kernel":
+        roles["kernel_parameters"] = Tensor((len(kparams),), kparams)
+        hooks.kparams = roles["kernel_parameters"]
     if kind == "potential":
         roles["kernel_dimension"] = kernel_dimension
     # bind by POSITION in the registry signature (roles are positional at the call site)
